@@ -522,7 +522,15 @@ def main(argv=None):
   a = ap.parse_args(argv)
   bind_repo()
   modname = "mc.checks." + a.prop.lower()
-  module = importlib.import_module(modname)
+  try:
+    module = importlib.import_module(modname)
+  except Exception:
+    # The check could not even be set up on this tree (the library does not import, a name the check is
+    # anchored in is gone, the C17 harness met a threading primitive it does not model): nothing was decided.
+    # Never a bare traceback with exit 1 - that would look like a violation without its VIOLATION line.
+    print("HARNESS-ERROR property=%s the check could not be loaded on tree %s; nothing was explored:\n%s"
+          % (a.prop, REPO, traceback.format_exc()))
+    return 3
   if a.replay:
     return replay(module, a.replay, a.quiet)
   run = Run(module, a.tier, a.seed)
